@@ -37,8 +37,16 @@ type Cfg struct {
 	Codes                  []int
 	TryTimeout             bool
 	Disable                bool
-	MR, MQ                 int // max_retries, max_requests
-	AR, AQ                 int // ambient retries / requests held by others
+	MR, MQ                 int  // max_retries, max_requests
+	AR, AQ                 int  // ambient retries / requests held by others
+	LongGlobal             bool // global timeout far beyond the history (the model has no clock): long retry chains
+}
+
+func (c Cfg) global() time.Duration {
+	if c.LongGlobal {
+		return 5 * time.Second
+	}
+	return GlobalTimeout
 }
 
 func b(x bool) string {
@@ -78,7 +86,7 @@ func (c Cfg) fixture() *px.Fixture {
 	cl := px.Cluster{Name: "c", Hosts: 1, MaxRetries: uint32(c.MR), MaxRequests: uint32(c.MQ)}
 	var rt v2.Router
 	var opts []px.RouteOpt
-	opts = append(opts, px.Timeout(GlobalTimeout))
+	opts = append(opts, px.Timeout(c.global()))
 	if c.RetryOn || c.N > 0 || len(c.Codes) > 0 || c.TryTimeout {
 		tt := time.Duration(0)
 		if c.TryTimeout {
@@ -205,7 +213,13 @@ func Run(c Cfg, choose Chooser, maxLabels int) Result {
 			pt, hasPT = last.Created+TryTimeout, true
 		}
 		if !gtConsumed {
-			gt, hasGT = real[0].Created+GlobalTimeout, true
+			// the global timer is armed by onUpstreamRequestSent: when the first request has been sent, or — when the
+			// first try was refused by the pool — by the first doRetry, right after the second attempt is created
+			base := real[0].Created
+			if as[0].Failed != "" && len(as) > 1 && as[1].Created < base {
+				base = as[1].Created
+			}
+			gt, hasGT = base+c.global(), true
 		}
 		return
 	}
@@ -253,7 +267,7 @@ func Run(c Cfg, choose Chooser, maxLabels int) Result {
 			// timer labels: only the earliest deadline, and only when the other one is far enough
 			if hasPT && (!hasGT || pt+timerGap < gt) {
 				opts = append(opts, "PT")
-			} else if hasGT && (!hasPT || gt+timerGap < pt) {
+			} else if hasGT && !c.LongGlobal && (!hasPT || gt+timerGap < pt) {
 				opts = append(opts, "GT")
 			}
 		}
